@@ -67,6 +67,38 @@ type world struct {
 	now     time.Time
 	r       *Rng
 	side    *Sidecar
+	cpc     *cpcEnv
+	hot     common.Address   // the address most touches and foreign writes of the case aim at
+	fam     []common.Address // a family of boundary addresses (see boundaryFamily), handed out by nextAddr
+	nPlain  int
+}
+
+// nextAddr hands out the addresses of the universe: members of the boundary family first (in a random half of the
+// cases), plain ones otherwise.
+func (w *world) nextAddr() common.Address {
+	for len(w.fam) > 0 {
+		a := w.fam[0]
+		w.fam = w.fam[1:]
+		if !w.inUni[a] && w.r.Chance(70) {
+			return a
+		}
+	}
+	w.nPlain++
+	return plainAddr(1 + w.nPlain)
+}
+
+func boundaryLabel(a common.Address) string {
+	switch {
+	case a[19] == 0xff && a[18] == 0xff:
+		return "addr:..ffff"
+	case a[19] == 0xff:
+		return "addr:..ff"
+	case a[19] == 0x00:
+		return "addr:..00"
+	case a[0] == 0xff:
+		return "addr:ff.."
+	}
+	return "addr:plain"
 }
 
 func (w *world) add(a common.Address, d string) {
@@ -148,10 +180,22 @@ func (w *world) plantCode(a common.Address, code []byte) {
 	w.c.App.EvmKeeper.SetCodeHash(w.ctx, a, h)
 }
 
+// storage: a few slots, or many; small keys and boundary keys (00..00, ff..ff, ff00..00, ...)
 func (w *world) plantStorage(a common.Address) {
 	n := 1 + w.r.Intn(4)
+	if w.r.Chance(20) {
+		n = 8 + w.r.Intn(12)
+	}
 	for i := 0; i < n; i++ {
-		w.c.App.EvmKeeper.SetState(w.ctx, a, common.BigToHash(Bi(int64(1+w.r.Intn(6)))), common.BigToHash(Bi(int64(w.r.Intn(3)))).Bytes())
+		k := Bi(int64(1 + w.r.Intn(6)))
+		if w.r.Chance(50) {
+			k = boundaryKey(w.r)
+		}
+		v := Bi(int64(w.r.Intn(3)))
+		if w.r.Chance(25) {
+			v = boundaryKey(w.r)
+		}
+		w.c.App.EvmKeeper.SetState(w.ctx, a, common.BigToHash(k), common.BigToHash(v).Bytes())
 	}
 }
 
@@ -347,10 +391,13 @@ func (w *world) addModules() {
 
 type group struct {
 	evm   bool
-	ops   []string
+	ops   []recOp
 	focus common.Address
 	exist bool
 	empty bool
+	bal   *big.Int // StateDB.GetBalance
+	nonce uint64   // StateDB.GetNonce
+	code  int      // StateDB.GetCodeHash as a code id
 	panic bool
 	desc  string
 }
@@ -369,9 +416,13 @@ func cqGroups(gs []group) string {
 	for i, g := range gs {
 		o := "GPanic"
 		if !g.panic {
-			o = fmt.Sprintf("(GOk %s %s %s)", az(g.focus), CqBool(g.exist), CqBool(g.empty))
+			o = fmt.Sprintf("(GOk %s %s %s %s %d %d)", az(g.focus), CqBool(g.exist), CqBool(g.empty), cz(g.bal), g.nonce, g.code)
 		}
-		items[i] = fmt.Sprintf("(%s, [%s], %s)", CqBool(g.evm), strings.Join(g.ops, "; "), o)
+		ops := make([]string, len(g.ops))
+		for j, op := range g.ops {
+			ops[j] = op.coq
+		}
+		items[i] = fmt.Sprintf("(%s, [%s], %s)", CqBool(g.evm), strings.Join(ops, "; "), o)
 	}
 	return "[" + strings.Join(items, ";\n      ") + "]"
 }
@@ -406,6 +457,10 @@ type run struct {
 	burns     []burn
 	blockMode bool
 	locked    map[common.Address][]*big.Int // SDK LockedCoins(block time) of the accounts before the transaction
+	touched   map[common.Address]bool       // the StateDB's touched set when the commit starts
+	rawInit   []rawEntry                    // raw x/evm store before the transaction, before the commit, after it
+	rawPre    []rawEntry
+	rawPost   []rawEntry
 }
 
 func newRun(w *world, from common.Address) *run {
@@ -413,7 +468,7 @@ func newRun(w *world, from common.Address) *run {
 	cfg, err := c.App.EvmKeeper.EVMConfig(w.ctx, nil)
 	require.NoError(w.t, err)
 	inner := evmvm.NewStateDB(w.ctx, cfg.CoinBase, c.App.EvmKeeper, c.App.AccountKeeper, c.App.BankKeeper)
-	db := &recDB{CStateDB: inner, t: w.t, ct: w.ct}
+	db := &recDB{CStateDB: inner, t: w.t, ct: w.ct, cpc: w.cpc}
 	to := common.Address{}
 	msg := ethtypes.NewMessage(from, &to, 0, Bi(0), 10_000_000, Bi(0), Bi(0), Bi(0), nil, nil, false)
 	evm := c.App.EvmKeeper.NewEVM(w.ctx, msg, cfg, nil, db)
@@ -438,6 +493,11 @@ func (r *run) do(evm bool, focus common.Address, desc string, f func()) bool {
 	} else {
 		g.exist = r.db.Exist(focus)
 		g.empty = r.db.Empty(focus)
+		g.bal = r.db.GetBalance(focus)
+		g.nonce = r.db.GetNonce(focus)
+		if h := r.db.GetCodeHash(focus); h != (common.Hash{}) && !evmtypes.IsEmptyCodeHash(h) {
+			g.code = codeIDOfHash(r.w.ct, h.Bytes())
+		}
 	}
 	r.groups = append(r.groups, g)
 	return p == nil
@@ -451,12 +511,22 @@ func (r *run) finish() {
 	// every address mentioned by a recorded operation belongs to the universe
 	for _, g := range r.groups {
 		for _, o := range g.ops {
-			f := strings.Fields(o)
-			if len(f) >= 2 && f[0] != "RevertTo" {
-				if z, ok := new(big.Int).SetString(f[1], 10); ok {
-					w.add(common.BigToAddress(z), "op-created")
-				}
+			for _, a := range o.addrs {
+				w.add(a, "op-created")
 			}
+		}
+	}
+	// ... and so does every address that owns a key of the raw x/evm store, before or after
+	r.rawInit = rawScan(w.c, w.ctx)
+	for _, a := range rawOwners(r.rawInit) {
+		w.add(a, "raw-store-owner")
+	}
+	var cur sdk.Context
+	if !r.failed {
+		cur = r.db.GetCurrentContext()
+		r.rawPre = rawScan(w.c, cur)
+		for _, a := range rawOwners(r.rawPre) {
+			w.add(a, "raw-store-owner")
 		}
 	}
 	sort.Slice(w.addrs, func(i, j int) bool { return strings.Compare(w.addrs[i].Hex(), w.addrs[j].Hex()) < 0 })
@@ -465,17 +535,20 @@ func (r *run) finish() {
 	require.NoError(w.t, err)
 	r.locked = map[common.Address][]*big.Int{}
 	for _, a := range w.addrs {
-		r.preTx = append(r.preTx, observe(w.t, w.c, w.ctx, w.denoms, w.ct, a))
+		r.preTx = append(r.preTx, observe(w.t, w.c, w.ctx, w.denoms, w.ct, a, r.rawInit))
 		r.locked[a] = lockedAt(w.c.App.AccountKeeper.GetAccount(w.ctx, a.Bytes()), w.denoms, w.now)
 	}
 	if r.failed {
 		return
 	}
 	r.suicided = map[common.Address]bool{}
-	cur := r.db.GetCurrentContext()
+	r.touched = map[common.Address]bool{}
+	for a := range r.db.ForTest_CloneTouched() {
+		r.touched[a] = true
+	}
 	for _, a := range w.addrs {
 		r.suicided[a] = r.db.HasSuicided(a)
-		r.preCom = append(r.preCom, observe(w.t, w.c, cur, w.denoms, w.ct, a))
+		r.preCom = append(r.preCom, observe(w.t, w.c, cur, w.denoms, w.ct, a, r.rawPre))
 	}
 	em := cur.EventManager()
 	n0 := len(em.Events())
@@ -511,8 +584,12 @@ func (r *run) finish() {
 	}
 	r.nextPost, err = w.c.App.AccountKeeper.AccountNumber.Peek(w.ctx)
 	require.NoError(w.t, err)
+	r.rawPost = rawScan(w.c, w.ctx)
+	for _, a := range rawOwners(r.rawPost) {
+		require.True(w.t, w.inUni[a], "the commit created keys of %s, an address no operation named", a.Hex())
+	}
 	for _, a := range w.addrs {
-		r.post = append(r.post, observe(w.t, w.c, w.ctx, w.denoms, w.ct, a))
+		r.post = append(r.post, observe(w.t, w.c, w.ctx, w.denoms, w.ct, a, r.rawPost))
 	}
 }
 
@@ -520,14 +597,15 @@ func (r *run) coqCase() string {
 	w := r.w
 	final := "None"
 	if !r.failed {
-		final = fmt.Sprintf("(Some (%s,\n      %d, %s))", cqEntries(r.post), r.nextPost, cqBurns(r.burns))
+		final = fmt.Sprintf("(Some (%s,\n      %d, %s,\n      %s,\n      %s))", cqEntries(r.post), r.nextPost, cqBurns(r.burns),
+			cqRaw(r.rawPre, w.ct), cqRaw(r.rawPost, w.ct))
 	}
 	var bl []string
 	for _, b := range w.blocked {
 		bl = append(bl, az(b))
 	}
-	return fmt.Sprintf("(mkCase %d [%s] [0; 1; 2]\n      %s\n      %d\n      %s\n      %s)",
-		w.now.Unix(), strings.Join(bl, "; "), cqEntries(r.preTx), r.nextPre, cqGroups(r.groups), final)
+	return fmt.Sprintf("(mkCase %d [%s] [0; 1; 2]\n      %s\n      %d\n      %s\n      %s\n      %s)",
+		w.now.Unix(), strings.Join(bl, "; "), cqEntries(r.preTx), r.nextPre, cqRaw(r.rawInit, w.ct), cqGroups(r.groups), final)
 }
 
 // ---------------------------------------------------------------- the oracle (property text, no model)
@@ -556,6 +634,11 @@ func sameIdentity(a, b *obsAcc) bool {
 	}
 	x, y := *a, *b
 	x.Nonce, y.Nonce = 0, 0
+	if x.Sched != nil && y.Sched != nil {
+		xs, ys := *x.Sched, *y.Sched
+		xs.DelV, ys.DelV = nil, nil
+		x.Sched, y.Sched = &xs, &ys
+	}
 	return cqAcc(&x) == cqAcc(&y)
 }
 
@@ -568,18 +651,40 @@ func zeroVec(v []*big.Int) bool {
 	return true
 }
 
+// what an address holds, all stores: the raw x/evm view and the keeper's view both count
+func holdsCodeOrStorage(e obsEntry) bool {
+	return e.Code != 0 || len(e.Stor) != 0 || e.RawCode != 0 || len(e.RawStor) != 0
+}
+
+func trulyEmpty(e obsEntry) bool {
+	return !holdsCodeOrStorage(e) && zeroVec(e.Bal) && (e.Acc == nil || e.Acc.Nonce == 0)
+}
+
+func nothingLeft(e obsEntry) bool {
+	return e.Acc == nil && zeroVec(e.Bal) && !holdsCodeOrStorage(e)
+}
+
 func (r *run) oracle(idx int, co *caseOut, onlyEvm bool) {
 	w := r.w
+	// 0. the keeper's per-address view (ForEachStorage, GetCodeHash) is the raw store's content, at every observation
+	for _, obs := range [][]obsEntry{r.preTx, r.preCom, r.post} {
+		for _, e := range obs {
+			if e.Code != e.RawCode || !sameSlots(e.Stor, e.RawStor) {
+				w.side.Hit("C15/destroy/keeper_view_differs_from_raw_store",
+					fmt.Sprintf("case %d: %s (%s): %s", idx, e.Addr.Hex(), boundaryLabel(e.Addr), entryFull(e)), co)
+			}
+		}
+	}
 	if r.failed {
 		// "a transaction that would do so fails as a whole": nothing of the StateDB reached the parent state
 		// (mode B compares with the state after the real block instead)
-		for i, a := range w.addrs {
-			if r.blockMode {
-				break
-			}
-			now := observe(w.t, w.c, w.ctx, w.denoms, w.ct, a)
-			if !entryEqual(now, r.preTx[i]) {
-				w.side.Hit("C15/destroy/failed_tx_left_trace", fmt.Sprintf("case %d: %s changed although the StateDB panicked", idx, a.Hex()), co)
+		if !r.blockMode {
+			raw := rawScan(w.c, w.ctx)
+			for i, a := range w.addrs {
+				now := observe(w.t, w.c, w.ctx, w.denoms, w.ct, a, raw)
+				if !entryEqual(now, r.preTx[i]) {
+					w.side.Hit("C15/destroy/failed_tx_left_trace", fmt.Sprintf("case %d: %s changed although the StateDB panicked", idx, a.Hex()), co)
+				}
 			}
 		}
 		return
@@ -587,12 +692,14 @@ func (r *run) oracle(idx int, co *caseOut, onlyEvm bool) {
 	nowUnix := w.now.Unix()
 	for i, a := range w.addrs {
 		pre, com, post := r.preTx[i], r.preCom[i], r.post[i]
-		// 1. protected accounts survive with their type, schedule and account number
+		// 1. protected accounts survive with their type, schedule and account number (a staking delegation may move
+		// coins into the delegated-vesting counter: compared without it)
 		if prot, why := isProtected(pre.Acc, nowUnix); prot && !sameIdentity(pre.Acc, post.Acc) {
 			w.side.Hit("C15/destroy/protected_destroyed/"+why,
 				fmt.Sprintf("case %d: %s (%s) was %s and is %s after a successful StateDB commit at block time %d", idx, a.Hex(), w.desc[a], cqAcc(pre.Acc), cqAcc(post.Acc), nowUnix), co)
 		}
-		// 2. locked coins stay (the SDK's LockedCoins at block time is the reference)
+		// 2. locked coins stay (the SDK's LockedCoins at block time is the reference): still in the balance, or
+		// delegated and counted as delegated vesting
 		if pre.Acc != nil && pre.Acc.Kind == kVesting {
 			locked := r.locked[a]
 			for d := range w.denoms {
@@ -600,32 +707,47 @@ func (r *run) oracle(idx int, co *caseOut, onlyEvm bool) {
 				if locked[d].Cmp(floor) < 0 {
 					floor = locked[d]
 				}
-				if post.Bal[d].Cmp(floor) < 0 {
+				have := new(big.Int).Set(post.Bal[d])
+				if post.Acc != nil && post.Acc.Kind == kVesting {
+					have.Add(have, new(big.Int).Sub(post.Acc.Sched.DelV[d], pre.Acc.Sched.DelV[d]))
+				}
+				if have.Cmp(floor) < 0 {
 					w.side.Hit("C15/destroy/locked_spent",
 						fmt.Sprintf("case %d: %s denom %d balance %s -> %s, locked %s", idx, a.Hex(), d, pre.Bal[d], post.Bal[d], locked[d]), co)
 				}
 			}
 		}
-		// 3. deleted at commit => self-destructed, or empty in every respect at commit time
-		if com.Acc != nil && post.Acc == nil && !r.suicided[a] {
-			if com.Code != 0 || len(com.Stor) != 0 || com.Acc.Nonce != 0 || !zeroVec(com.Bal) {
-				w.side.Hit("C15/destroy/nonempty_deleted",
-					fmt.Sprintf("case %d: %s deleted at commit while non-empty: %s", idx, a.Hex(), cqEntry(com)), co)
+		// 3. the commit deletes exactly the touched addresses that self-destructed or are empty IN THE STATE THE COMMIT
+		// STARTS FROM (whatever the StateDB or anybody else wrote before), removes them completely, and changes
+		// nothing else. The expectation uses the stores only: bank, auth, the raw x/evm scan.
+		expectDeleted := r.touched[a] && (r.suicided[a] || trulyEmpty(com))
+		switch {
+		case expectDeleted && !nothingLeft(post):
+			if entryEqual(post, com) {
+				w.side.Hit("C15/destroy/touched_empty_or_selfdestructed_kept",
+					fmt.Sprintf("case %d: %s (%s) suicided=%v is still %s", idx, a.Hex(), boundaryLabel(a), r.suicided[a], entryFull(post)), co)
+			} else {
+				w.side.Hit("C15/destroy/incomplete_destroy",
+					fmt.Sprintf("case %d: %s (%s) left behind %s", idx, a.Hex(), boundaryLabel(a), entryFull(post)), co)
 			}
+		case !expectDeleted && com.Acc != nil && post.Acc == nil:
+			w.side.Hit("C15/destroy/nonempty_deleted",
+				fmt.Sprintf("case %d: %s touched=%v deleted at commit while it did not self-destruct and held: %s", idx, a.Hex(), r.touched[a], entryFull(com)), co)
+		case !expectDeleted && !entryEqual(post, com):
+			w.side.Hit("C15/destroy/commit_changed_kept_address",
+				fmt.Sprintf("case %d: %s touched=%v was %s when the commit started and is %s", idx, a.Hex(), r.touched[a], entryFull(com), entryFull(post)), co)
 		}
 		// 3b. traces made only by the interpreter never replace an account that has code or a non-zero nonce
-		if onlyEvm && pre.Acc != nil && (pre.Code != 0 || pre.Acc.Nonce != 0) && !r.suicided[a] {
-			if post.Acc == nil || post.Acc.Num != pre.Acc.Num || post.Code != pre.Code || post.Acc.Nonce < pre.Acc.Nonce || len(post.Stor) < len(pre.Stor) {
+		if onlyEvm && pre.Acc != nil && (pre.RawCode != 0 || pre.Acc.Nonce != 0) && !r.suicided[a] {
+			if post.Acc == nil || post.Acc.Num != pre.Acc.Num || post.RawCode != pre.RawCode || post.Acc.Nonce < pre.Acc.Nonce || len(post.RawStor) < len(pre.RawStor) {
 				w.side.Hit("C15/destroy/contract_replaced",
-					fmt.Sprintf("case %d: %s was %s and is %s without having self-destructed", idx, a.Hex(), cqEntry(pre), cqEntry(post)), co)
+					fmt.Sprintf("case %d: %s was %s and is %s without having self-destructed", idx, a.Hex(), entryFull(pre), entryFull(post)), co)
 			}
 		}
-		// 4. deleted accounts (and everything marked self-destructed) are removed completely
-		if ((pre.Acc != nil || com.Acc != nil) && post.Acc == nil) || r.suicided[a] {
-			if post.Acc != nil || !zeroVec(post.Bal) || post.Code != 0 || len(post.Stor) != 0 {
-				w.side.Hit("C15/destroy/incomplete_destroy",
-					fmt.Sprintf("case %d: %s left behind %s", idx, a.Hex(), cqEntry(post)), co)
-			}
+		// 4. whatever had an account before or at commit time and has none now is gone completely
+		if (pre.Acc != nil || com.Acc != nil) && post.Acc == nil && !nothingLeft(post) {
+			w.side.Hit("C15/destroy/incomplete_destroy",
+				fmt.Sprintf("case %d: %s (%s) left behind %s", idx, a.Hex(), boundaryLabel(a), entryFull(post)), co)
 		}
 	}
 }
